@@ -30,7 +30,8 @@ class PROP(Prop):
                f"gw::{MULTI}:Group._unregister", f"gw::{GW}:Gateway.exit", f"gw::{GT}.join_wait", f"gw::{GT}.kill",
                f"grp-any::{GT}", f"grp-local::{GT}",
                f"io::{GIO}:Popen2IOMaster.wait", f"io::{GIO}:Popen2IOMaster.kill", f"io::{GIO}:ProxyIO._controll", f"io::{GIO}:ProxyIO.kill", f"io::{GIO}:ProxyIO.close_write",
-               f"x::{MULTI}:Group.allocate_id"]
+               f"x::{MULTI}:Group.allocate_id",
+               f"x::{MULTI}:Group.__iter__"]     # terminate() walks the members while exit() unregisters them: the walk is over a snapshot (one round handles every member)
     heavy = {f"grp-any::{GT}": 8, f"grp-local::{GT}": 8, f"{ST}.termkill": 2, f"{ST}#any": 2}
     extra_worlds = {"gw": cg.declare_gateway_level, "grp-any": lambda w: cg.declare_group_terminate(w, "any"), "grp-local": lambda w: cg.declare_group_terminate(w, "local"),
                     "io": cg.declare_transports, "x": cx.declare}
